@@ -144,6 +144,7 @@ static Error do_ref(Prog& p, const std::vector<std::string>& t, long& label_out)
       return a.ldr(r, a64::ptr(mk_label(num(4)), int32_t(num(5))));
     }
     if (ins == "ldrsw") { label_out = num(3); return a.ldrsw(a64::x(uint32_t(num(2) % 31)), a64::ptr(mk_label(num(3)), int32_t(num(4)))); }
+    if (ins == "prfm")  { label_out = num(3); return a.prfm(Imm(int64_t(num(2) & 31)), a64::ptr(mk_label(num(3)), int32_t(num(4)))); }
     if (ins == "bi")    return a.b(Imm(int64_t(std::stoull(t.at(2)))));
     if (ins == "bli")   return a.bl(Imm(int64_t(std::stoull(t.at(2)))));
     if (ins == "bcondi") return a.b(a64_cc[num(2) % 14], Imm(int64_t(std::stoull(t.at(3)))));
